@@ -1722,6 +1722,9 @@ _HELPER_DEF = """def _prior_for(group, sample):
 
 def get_major_cn_prior(major_cn, minor_cn, normal_cn, error_rate=1e-3):"""
 SELFTEST = [
+    {"name": "L1-group-filter-only-when-row-count-odd", "kind": "break", "rule": "L1", "file": _P, "old": "    df = df.loc[group_transform == samples_len]\n    return df", "new": "    if len(df) != samples_len * df[\"mutation_id\"].nunique():\n        df = df.loc[group_transform == samples_len]\n    return df"},
+    {"name": "L1-cn-filter-only-for-large-tables", "kind": "break", "rule": "L1", "file": _P, "old": "    df = df.loc[df[\"major_cn\"] > 0]\n    return df", "new": "    if len(df) > 2:\n        df = df.loc[df[\"major_cn\"] > 0]\n    return df"},
+    {"name": "L3-defaults-only-for-few-samples", "kind": "break", "rule": "L3", "file": _P, "old": "    if \"error_rate\" not in df.columns:\n        df.loc[:, \"error_rate\"] = 1e-3\n", "new": "    if len(samples) <= 10:\n        if \"error_rate\" not in df.columns:\n            df.loc[:, \"error_rate\"] = 1e-3\n"},
     # ---- Appendix A
     {"name": "L2-samples-not-sorted", "kind": "break", "rule": "L2", "file": _P, "old": 'samples = sorted(df["sample_id"].unique())', "new": 'samples = list(df["sample_id"].unique())'},
     {"name": "L2-sort_values-removed", "kind": "break", "rule": "L2", "file": _P, "old": '    df = df.sort_values(by="mutation_id", ascending=True)\n', "new": "    df = df.copy()\n"},
